@@ -1,5 +1,6 @@
 //! C18 correspondence harness: calls the live CpuContext / MinidumpContext methods.
 //!   <variant> <name> <validity> <value> [<context_flags>|- [<fill>]]
+//!   R <arch> <fill> <len>      (MinidumpContext::read: which context type is chosen; see run_read)
 //! variant: MinidumpRawContext variant (X86 Ppc Ppc64 Amd64 Sparc Arm Arm64 OldArm64 Mips)
 //! name: register name, `-` for the empty string, `~` stands for a space
 //! validity: `A` (All) or `S:<n1>,<n2>,...` (Some(set); `S:` is the empty set; `-` = empty name)
@@ -34,7 +35,7 @@
 //!   ev  1 iff every (name, value) pair MinidumpContext::registers() and CpuContext::registers() yield after the set
 //!       carries the value get_register_always(name) returns
 //!   | RG=<T::REGISTERS> | spm=<memoize(sp name)> | ipm=<memoize(ip name)> | sm=<memoize of each validity member>
-use minidump::{CpuContext, MinidumpContext, MinidumpContextValidity, MinidumpRawContext};
+use minidump::{ContextError, CpuContext, MinidumpContext, MinidumpContextValidity, MinidumpRawContext, MinidumpStream, MinidumpSystemInfo};
 use minidump_common::format as md;
 use scroll::Pread;
 use std::collections::HashSet;
@@ -192,9 +193,45 @@ where
     )
 }
 
+/// `R <arch> <fill> <len>`: MinidumpContext::read on `len` bytes in which every 32-bit word is `fill`, with a system info
+/// whose processor_architecture is `arch` (parsed from a 56-byte MINIDUMP_SYSTEM_INFO through the stream's own reader):
+/// `rd=<variant>;rsz=<register_size>;rip=<get_instruction_pointer>` or `rd=RF` (ReadFailure) / `rd=UC` (UnknownCpuContext)
+fn run_read(t: &mut Toks) -> String {
+    let arch = t.u64() as u16;
+    let fill = t.u64() as u32;
+    let len = t.u64() as usize;
+    let mut sys = vec![0u8; 56];
+    sys[0..2].copy_from_slice(&arch.to_le_bytes());
+    let si = MinidumpSystemInfo::read(&sys, &sys, scroll::LE, None).expect("system info from 56 bytes");
+    let mut bytes = pattern(Some(fill));
+    bytes.truncate(len);
+    match MinidumpContext::read(&bytes, scroll::LE, &si, None) {
+        Ok(c) => {
+            let v = match c.raw {
+                MinidumpRawContext::X86(_) => "X86",
+                MinidumpRawContext::Ppc(_) => "Ppc",
+                MinidumpRawContext::Ppc64(_) => "Ppc64",
+                MinidumpRawContext::Amd64(_) => "Amd64",
+                MinidumpRawContext::Sparc(_) => "Sparc",
+                MinidumpRawContext::Arm(_) => "Arm",
+                MinidumpRawContext::Arm64(_) => "Arm64",
+                MinidumpRawContext::OldArm64(_) => "OldArm64",
+                MinidumpRawContext::Mips(_) => "Mips",
+            };
+            let all = matches!(c.valid, MinidumpContextValidity::All);
+            format!("rd={};rsz={};rip={}|va={}", v, c.register_size(), c.get_instruction_pointer(), all as u8)
+        }
+        Err(ContextError::ReadFailure) => "rd=RF".into(),
+        Err(ContextError::UnknownCpuContext) => "rd=UC".into(),
+    }
+}
+
 fn run(line: &str) -> String {
     let mut t = Toks::new(line);
     let variant = t.str();
+    if variant == "R" {
+        return run_read(&mut t);
+    }
     let name = name_of(t.str());
     let vspec = t.str();
     let value = t.u64();
